@@ -191,6 +191,7 @@ def rule_node_sem(ctx: RuleContext, p: Program, rid: str, max_items: int = 3) ->
         nonlocal cases
         me, doc, items, left, right = build(n)
         new_items = [mk_item(f'new{k}') for k in range(2)]
+        new_items += items          # positions 2.. : the items already in the list (for `w[i] = w[i]`)
         args = args_fn(new_items)
         ref = list(items)
         want_exc = None
@@ -232,8 +233,11 @@ def rule_node_sem(ctx: RuleContext, p: Program, rid: str, max_items: int = 3) ->
             run_case(n, '__setitem__', lambda nv, i=i: [i, nv[0]], lambda r, nv, i=i: r.__setitem__(i, nv[0]), f'w[{i}] = new0')
             run_case(n, 'insert', lambda nv, i=i: [i, nv[0]], lambda r, nv, i=i: r.insert(i, nv[0]), f'w.insert({i}, new0)')
             run_case(n, 'pop', lambda nv, i=i: [i], lambda r, nv, i=i: r.pop(i), f'w.pop({i})')
+            if 0 <= i < n:
+                # what `w[i] += x` / `w[i] *= 2` ends with when the item's in-place operator returns the item itself: a no-op for a list
+                run_case(n, '__setitem__', lambda nv, i=i: [i, nv[2 + i]], lambda r, nv, i=i: r.__setitem__(i, nv[2 + i]), f'w[{i}] = w[{i}] (the very same item)')
         run_case(n, 'append', lambda nv: [nv[0]], lambda r, nv: r.append(nv[0]), 'w.append(new0)')
-        run_case(n, 'extend', lambda nv: [list(nv)], lambda r, nv: r.extend(nv), 'w.extend([new0, new1])')
+        run_case(n, 'extend', lambda nv: [list(nv[:2])], lambda r, nv: r.extend(nv[:2]), 'w.extend([new0, new1])')
         run_case(n, 'extend', lambda nv: [[]], lambda r, nv: r.extend([]), 'w.extend([])')
         run_case(n, 'clear', lambda nv: [], lambda r, nv: r.clear(), 'w.clear()')
         for a, b in itertools.product(bounds(n), repeat=2):
